@@ -178,7 +178,10 @@ def _install(ctx):
     # ---- RandomWalk._is_overlap
     real_overlap = rw.RandomWalk._is_overlap
 
-    def _is_overlap(self, point, node, nrexcl=1):
+    def _is_overlap(self, point, node, *args, **kwargs):
+        # whatever the caller passes is handed on unchanged (the seam must not pin the default of the real function);
+        # the shadow judges with the exclusion range the caller asked for, 1 (bonded neighbours) when it asked for none
+        nrexcl = args[0] if args else kwargs.get("nrexcl", 1)
         if ctx.in_step is None:
             ctx.start_calls += 1
             if ctx.start_cap is not None and ctx.start_calls > ctx.start_cap:
@@ -189,7 +192,7 @@ def _install(ctx):
                 ctx.rec.emit("start_reject", mol=self.mol_idx, forced=1)
                 ctx.rec.symbol("s")
                 return True
-            res = real_overlap(self, point, node, nrexcl)
+            res = real_overlap(self, point, node, *args, **kwargs)
             if res:
                 ctx.probe("natural_start_reject")
                 ctx.rec.symbol("n")
@@ -203,7 +206,7 @@ def _install(ctx):
         if t:
             ctx.fault("candidate_forced_reject")
             return True
-        res = real_overlap(self, point, node, nrexcl)
+        res = real_overlap(self, point, node, *args, **kwargs)
         _shadow_overlap(ctx, self, np.asarray(point, dtype=float), node, nrexcl, res)
         return res
 
